@@ -221,6 +221,17 @@ func (g *TypeGen) protoStruct(depth int) reflect.Type {
 			opt = ",proto"
 		case 4:
 			ft = reflect.PointerTo(g.protoScalar())
+			// a pointer in front of a repeated field or a message: the elements still accumulate in one slice
+			switch g.r.Intn(4) {
+			case 0:
+				ft = reflect.PointerTo(reflect.SliceOf(g.protoScalar()))
+			case 1:
+				if depth > 0 {
+					ft = reflect.PointerTo(reflect.SliceOf(g.protoStruct(depth - 1)))
+				} else {
+					ft = reflect.PointerTo(reflect.SliceOf(reflect.TypeOf("")))
+				}
+			}
 		default:
 			ft = g.protoScalar()
 		}
